@@ -15,7 +15,13 @@ def sumDims : List NGroup → Nat
   | [] => 0
   | (.mk _ dim _) :: gs => dim.dim.size + sumDims gs
 
-def sumDataHdrs (ds : List NData) : Nat := (ds.map (·.lenSize)).foldl (· + ·) 0
+def sumDataHdrs : List NData → Nat
+  | [] => 0
+  | d :: ds => d.lenSize + sumDataHdrs ds
+
+def sumLens : List (List Nat) → Nat
+  | [] => 0
+  | p :: ps => p.length + sumLens ps
 
 mutual
   /-- the `n * (block_length + nested headers)` term of one group followed by the
@@ -45,7 +51,7 @@ def messageSize (m : NMessage) (counts : List Nat) (totalData : Nat) : Nat :=
 
 mutual
   def totalData : LVal → Nat
-    | .mk _ gvs dvs => (dvs.map List.length).foldl (· + ·) 0 + totalDataGs gvs
+    | .mk _ gvs dvs => sumLens dvs + totalDataGs gvs
   def totalDataGs : List GVal → Nat
     | [] => 0
     | (.mk _ es) :: gs => totalDataEs es + totalDataGs gs
